@@ -197,7 +197,7 @@ Proof.
     all: cbv beta iota zeta in B.
     all: try (match type of B with context [gstep] => fail 1 | _ => idtac end; brk B; try discriminate B; apply some_inj in B; rewrite <- B;
               repeat match goal with |- context [if ?x then _ else _] => destruct x end;
-              repeat match goal with |- context [match ?x with KRet => _ | KWait => _ | KDrain => _ end] => destruct x end;
+              repeat match goal with |- context [match ?x with KRet => _ | KWait => _ | KDrain => _ | KCall _ _ _ => _ end] => destruct x end;
               repeat match goal with |- L2 (set_mpc _ _ (match ?x with _ => _ end)) => destruct x end;
               (apply (L2_keep _ _ H); [mproj; lproj; try apply incl_refl | mproj; lproj; pcs_goal I Hpc t]); fail).
     + (* ordinary lane code *)
@@ -387,7 +387,7 @@ Proof. intros E1 E2 E3. unfold pset, witem. rewrite E1, E2, E3. apply incl_refl.
 Ltac dmatch :=
   repeat match goal with
          | |- context [if ?x then _ else _] => destruct x
-         | |- context [match ?k with KRet => _ | KWait => _ | KDrain => _ end] => destruct k
+         | |- context [match ?k with KRet => _ | KWait => _ | KDrain => _ | KCall _ _ _ => _ end] => destruct k
          | |- context [match ?l with nil => _ | cons _ _ => _ end] => destruct l
          end.
 
@@ -494,6 +494,7 @@ Proof.
            ++ intros _. split; [intros _ | intros E; congruence].
               unfold pset. mproj. lproj. apply in_or_app. right. apply in_or_app. right. unfold ids. rewrite map_app. apply in_or_app. right. left. reflexivity.
            ++ intros E; discriminate E.
+        -- intros Hs. exfalso. revert Hs. mproj. rewrite Hpc. cbn [stage kont]. lia.
         -- intros Hs. exfalso. revert Hs. mproj. rewrite Hpc. cbn [stage kont]. lia.
       * apply (PW_frame s _ u (H3 u)); mproj; lproj; rewrite ?upd_other by exact N.
         -- tauto.
@@ -652,8 +653,8 @@ Proof.
     pose proof I as (T & Y & Vm & G). destruct (T t) as (T1 & T2 & T3 & T4 & T5 & T6).
     unfold mbegin in B. destruct (pcs (lane s) t) eqn:Hlp; try discriminate B.
     destruct c.
-    + destruct (mpcs s t) eqn:Hpc; try discriminate B. destruct (qos_ok q); [|discriminate B].
-      apply some_inj in B; subst s'. generic H3 s u t Hpc.
+    + destruct (mpcs s t) eqn:Hpc; try discriminate B; (destruct (qos_ok q); [|discriminate B]);
+        apply some_inj in B; subst s'; generic H3 s u t Hpc.
     + destruct (mpcs s t) eqn:Hpc; try discriminate B.
       destruct (qos_ok q && negb (t =? mtid s) && negb (mainstarted s)); [|discriminate B].
       apply some_inj in B; subst s'. destruct aaw; generic H3 s u t Hpc.
@@ -728,17 +729,17 @@ Qed.
 Lemma view_sig p t : c_view (mclass p) = VSig t -> exists more, p = MB_sig t more.
 Proof.
   destruct p; cbn; try discriminate;
-    try (match goal with |- context [match ?k with KRet => _ | KWait => _ | KDrain => _ end] => destruct k end; cbn; discriminate).
+    try (match goal with |- context [match ?k with KRet => _ | KWait => _ | KDrain => _ | KCall _ _ _ => _ end] => destruct k end; cbn; discriminate).
   - intros E. injection E as ->. eexists; reflexivity.
   - destruct tgt; cbn; discriminate.
 Qed.
-Lemma view_item p x : In x (witem (mclass p)) -> exists w more, p = MB_run x w more \/ p = MB_incall x w more.
+Lemma view_item p x : In x (witem (mclass p)) ->
+  exists w more, p = MB_run x w more \/ p = MB_incall x w more \/ kont p = Some (KCall x w more).
 Proof.
-  unfold witem. destruct p; cbn; try contradiction;
-    try (match goal with |- context [match ?k with KRet => _ | KWait => _ | KDrain => _ end] => destruct k end; cbn; contradiction).
+  unfold witem. destruct p; cbn; try contradiction; try (destruct tgt; cbn; contradiction).
+  all: try (destruct k; cbn; try contradiction; intros [<-|[]]; eexists _, _; right; right; reflexivity).
   - intros [<-|[]]. eexists _, _. left. reflexivity.
-  - intros [<-|[]]. eexists _, _. right. reflexivity.
-  - destruct tgt; cbn; contradiction.
+  - intros [<-|[]]. eexists _, _. right. left. reflexivity.
 Qed.
 
 (* NO LOST WAKE-UP FOR A SYNCHRONOUS CALLER.  A caller of dispatch_sync / dispatch_async_and_wait on the main queue whose
@@ -754,7 +755,8 @@ Theorem mainq_sync_wakeup_not_lost m prio rb s t :
   waiter_of s i = t /\
   (w_sigd (ws s t) = false ->
      In i (ids (lst (lane s))) \/ In i (ids (snap s)) \/
-     (exists w more, mpcs s (mtid s) = MB_run i w more \/ mpcs s (mtid s) = MB_incall i w more) \/
+     (exists w more, mpcs s (mtid s) = MB_run i w more \/ mpcs s (mtid s) = MB_incall i w more \/
+                     kont (mpcs s (mtid s)) = Some (KCall i w more)) \/
      (exists more, mpcs s (mtid s) = MB_sig t more)) /\
   (w_sigd (ws s t) = true -> mpcs s t = MS_sleep -> w_wok (ws s t) = true \/ exists more, mpcs s (mtid s) = MB_fwake t more).
 Proof.
